@@ -99,12 +99,28 @@ Theorem C19_desc_eq_structural : forall a b, desc_eq eq_iter a b = true <-> a = 
 Proof. exact desc_eq_iter_structural. Qed.
 Print Assumptions C19_desc_eq_structural.
 
-(* desc_cmp_total_order_partial: proved: no panic and Equal <-> structural equality; antisymmetry and
-   transitivity of the descriptor order are not stated here (checked per run by the oracle) *)
-Theorem C19_desc_cmp_total_order_partial : forall kf kx, total_order kf -> total_order kx ->
-  forall a b, exists c, desc_cmp cmp_iter kf kx a b = EqOrdModel.Ok c /\ (c = Eq <-> a = b).
-Proof. exact desc_cmp_spec. Qed.
-Print Assumptions C19_desc_cmp_total_order_partial.
+(* the descriptor order (variant order, then field-wise lexicographic; Tr: internal key, then tree) never panics
+   and is a total order whose Equal is structural equality and coincides with == *)
+Theorem C19_desc_cmp_total_order : forall kf kx, total_order kf -> total_order kx ->
+  (forall a b, exists c, desc_cmp cmp_iter kf kx a b = EqOrdModel.Ok c) /\
+  (forall a b, desc_cmp cmp_iter kf kx a b = EqOrdModel.Ok Eq <-> a = b) /\
+  (forall a b c, desc_cmp cmp_iter kf kx a b = EqOrdModel.Ok c -> desc_cmp cmp_iter kf kx b a = EqOrdModel.Ok (CompOpp c)) /\
+  (forall a b c, desc_cmp cmp_iter kf kx a b = EqOrdModel.Ok Lt -> desc_cmp cmp_iter kf kx b c = EqOrdModel.Ok Lt ->
+                 desc_cmp cmp_iter kf kx a c = EqOrdModel.Ok Lt).
+Proof. exact desc_cmp_total_order. Qed.
+Print Assumptions C19_desc_cmp_total_order.
+
+Theorem C19_desc_cmp_eq_iff_eq : forall kf kx, total_order kf -> total_order kx ->
+  forall a b, desc_cmp cmp_iter kf kx a b = EqOrdModel.Ok Eq <-> desc_eq eq_iter a b = true.
+Proof. exact desc_cmp_eq_iff_eq. Qed.
+Print Assumptions C19_desc_cmp_eq_iff_eq.
+
+Example C19_desc_cmp_examples :
+  desc_cmp cmp_iter N.compare N.compare (DWsh (w_pk 0)) (DTr 0 []) = EqOrdModel.Ok Lt /\
+  desc_cmp cmp_iter N.compare N.compare (DShWsh (w_pk 0)) (DSh (w_pk 0)) = EqOrdModel.Ok Lt /\
+  desc_cmp cmp_iter N.compare N.compare (DTr 0 [(1, w_pk 0); (1, w_pk 1)]) (DTr 0 [(1, w_pk 1); (1, w_pk 0)]) = EqOrdModel.Ok Lt /\
+  desc_cmp cmp_iter N.compare N.compare (DTr 0 [(1, w_pk 0); (1, w_pk 1)]) (DTr 0 []) = EqOrdModel.Ok Gt.
+Proof. exact desc_cmp_examples. Qed.
 
 (* ---- the spend-info cache of Tr is run-time state that ==, cmp do not read: a value is (structure, cache),
         and the answers depend on the structures only, for every history (fresh / warmed / clone of warmed) *)
@@ -121,3 +137,44 @@ Print Assumptions C19_desc_cmp_history_independent.
 Theorem C19_desc_eq_structural_any_history : forall x y, cdesc_eq eq_iter x y = true <-> cd_desc x = cd_desc y.
 Proof. exact cdesc_eq_structural. Qed.
 Print Assumptions C19_desc_eq_structural_any_history.
+
+(* the same laws for descriptor values with arbitrary cache histories (fresh / warmed / cloned) *)
+Theorem C19_desc_cmp_total_order_any_history : forall kf kx, total_order kf -> total_order kx ->
+  (forall x y, exists c, cdesc_cmp cmp_iter kf kx x y = EqOrdModel.Ok c) /\
+  (forall x y, cdesc_cmp cmp_iter kf kx x y = EqOrdModel.Ok Eq <-> cd_desc x = cd_desc y) /\
+  (forall x y c, cdesc_cmp cmp_iter kf kx x y = EqOrdModel.Ok c -> cdesc_cmp cmp_iter kf kx y x = EqOrdModel.Ok (CompOpp c)) /\
+  (forall x y z, cdesc_cmp cmp_iter kf kx x y = EqOrdModel.Ok Lt -> cdesc_cmp cmp_iter kf kx y z = EqOrdModel.Ok Lt ->
+                 cdesc_cmp cmp_iter kf kx x z = EqOrdModel.Ok Lt) /\
+  (forall x y, cdesc_cmp cmp_iter kf kx x y = EqOrdModel.Ok Eq <-> cdesc_eq eq_iter x y = true).
+Proof. exact cdesc_cmp_total_order. Qed.
+Print Assumptions C19_desc_cmp_total_order_any_history.
+
+(* ---- policies: derived == is structural; the hand-written Ord (variant_name, then contents; Or with odds; Thresh
+        by k then children) never reaches unreachable! and is a total order whose Equal coincides with ==.
+        (A semantic policy is a policy without And / Or; its Ord is the same match without those arms.) *)
+From Verif Require Import EqOrdPolModel EqOrdPolProofs.
+
+Theorem C19_policy_eq_structural : forall a b, cpol_eqb a b = true <-> a = b.
+Proof. exact cpol_eqb_eq. Qed.
+Print Assumptions C19_policy_eq_structural.
+
+Theorem C19_policy_cmp_total_order : forall kcmp, total_order kcmp ->
+  (forall a b, exists c, cpol_cmp kcmp a b = EqOrdModel.Ok c) /\
+  (forall a b, cpol_cmp kcmp a b = EqOrdModel.Ok Eq <-> a = b) /\
+  (forall a b c, cpol_cmp kcmp a b = EqOrdModel.Ok c -> cpol_cmp kcmp b a = EqOrdModel.Ok (CompOpp c)) /\
+  (forall a b c, cpol_cmp kcmp a b = EqOrdModel.Ok Lt -> cpol_cmp kcmp b c = EqOrdModel.Ok Lt -> cpol_cmp kcmp a c = EqOrdModel.Ok Lt).
+Proof. exact cpol_cmp_total_order. Qed.
+Print Assumptions C19_policy_cmp_total_order.
+
+Theorem C19_policy_cmp_eq_iff_eq : forall kcmp, total_order kcmp ->
+  forall a b, cpol_cmp kcmp a b = EqOrdModel.Ok Eq <-> cpol_eqb a b = true.
+Proof. exact cpol_cmp_eq_iff_eqb. Qed.
+Print Assumptions C19_policy_cmp_eq_iff_eq.
+
+Example C19_policy_cmp_examples :
+  cpol_cmp N.compare (QOr [(9, QKey 0); (1, QKey 1)]) (QOr [(1, QKey 0); (9, QKey 1)]) = EqOrdModel.Ok Gt /\
+  cpol_cmp N.compare (QOlder 1) (QOlder 65537) = EqOrdModel.Ok Lt /\
+  cpol_cmp N.compare (QOlder 8388609) (QOlder 2) = EqOrdModel.Ok Gt /\
+  cpol_cmp N.compare (QAnd [QKey 0; QKey 1]) (QAnd [QKey 0; QKey 1; QKey 2]) = EqOrdModel.Ok Lt /\
+  cpol_cmp N.compare (QThresh 1 [QKey 0; QKey 1]) (QOr [(1, QKey 0); (1, QKey 1)]) = EqOrdModel.Ok Gt.
+Proof. exact pol_cmp_examples. Qed.
